@@ -805,7 +805,7 @@ func runRunner(c *core.Ctx, which string) {
 			if race {
 				timeout = 100 * time.Second
 			}
-			c.RunSharded(cases, core.ShardOpts{Mode: "runner", Bin: bin, Workers: workers, CPUs: limit, Timeout: timeout, PerCase: 150 * time.Millisecond,
+			c.RunSharded(cases, core.ShardOpts{Mode: "runner", Bin: bin, Workers: workers, CPUs: limit, Timeout: timeout, PerCaseTime: 150 * time.Millisecond,
 				Env: append(env, "VERIF_LIMIT="+fmt.Sprint(limit)), Died: died(limit, race)})
 		}
 	}
